@@ -261,6 +261,12 @@ func runGateSeqOps(rc *RunCtx, prop string, fixed []gateOp, fixedBroker bool) {
 					// "never": any ordinary amount of time may pass
 					d = []int64{1, int64(time.Hour), int64(24 * time.Hour), int64(90 * 24 * time.Hour), int64(time.Second), int64(time.Minute), int64(1000 * time.Hour)}[tp.Choose(7, "adv-long")]
 				}
+				if fixed == nil && tp.Choose(8, "clock-steps-back") == 0 {
+					// the time source is the caller's (NowFunc): it may be set back (NTP step, a restored VM);
+					// groups are then judged against the new reading, like everything else
+					d = -d
+					simrt.Probe("gate.clock-stepped-back")
+				}
 				op = gateOp{Kind: "advance", D: d}
 			case c < 15:
 				op = gateOp{Kind: "flushall"}
